@@ -2,7 +2,7 @@
 thread, not at all for UTC / fixed-offset names.  (DESIGN.md section 3, C20)"""
 import re
 from ..frontend import kids, walk, qn, qtype, dtype, pos, ancestors, AnalysisBroken, control_program
-from ..expr import callee, call_args, peel, Keys
+from ..expr import callee, call_args, peel, Keys, written_lvalues
 from ..callgraph import fname, CallGraph
 from ..lock import LockRegions, static_mutex_keys, is_internal, entry_held
 from ..effects import is_static_storage, thread_effects, var_refs
@@ -14,7 +14,10 @@ EXPLANATION = (
     'call graph; on each chain a must-hold branch fact shows the fixed-offset test failed before '
     'the call (C20-fixed), an RAII lock region of a static-storage mutex must cover a call site of '
     'the chain (C20-serial), and inside one continuous hold of that mutex a lookup of the name '
-    'cache must dominate, and an insertion post-dominate, the site (C20-once); no library function '
+    'cache must dominate, and an insertion post-dominate, the site (C20-once); from the function that '
+    'owns the cache down to the factory every site hands on its own name parameter unchanged, and the '
+    'factory receives the very string the fixed-offset test refused (C20-name: the cache is keyed by '
+    'the requested name, so a name altered on the way reaches the factory twice or untested); no library function '
     'names a thread-creating facility (C20-thread).  Decides the placement clauses for every '
     'schedule; does not decide what a user factory does.')
 LEVEL = ('Structural proof of the placement clauses of the factory contract for all schedules and all names: '
@@ -155,6 +158,91 @@ def map_access(node, G=None):
     return None
 
 
+def _is_string(t):
+    t = (t or '').replace('const ', '').replace('&', '').strip()
+    return t in ('std::string', 'string') or t.startswith('std::basic_string<char') or t.startswith('basic_string<char')
+
+
+def _plain_name(u, f, e, depth=0):
+    """'param' when e denotes a string parameter of f as it was passed in (directly, through a const local / reference
+    copy of it, or through a member the constructor initialises from it); 'derived' when it is computed from strings
+    (a call, a concatenation); None when not recognised."""
+    x = peel(e, explicit=False)
+    while x.get('kind') in ('MaterializeTemporaryExpr', 'CXXBindTemporaryExpr', 'ExprWithCleanups') and kids(x):
+        x = peel(kids(x)[0], explicit=False)
+    if x.get('kind') == 'CXXConstructExpr' and len(call_args(x)) == 1 and _is_string(dtype(x) or qtype(x)) and \
+            _is_string(dtype(call_args(x)[0]) or qtype(call_args(x)[0])):
+        return _plain_name(u, f, call_args(x)[0], depth)       # a copy
+    if x.get('kind') == 'DeclRefExpr':
+        rd = x.get('referencedDecl') or {}
+        if rd.get('kind') == 'ParmVarDecl':
+            written = any(y.get('kind') in ('CXXOperatorCallExpr', 'CXXMemberCallExpr', 'BinaryOperator') and
+                          any((peel(l_, explicit=False).get('referencedDecl') or {}).get('id') == rd.get('id') for l_ in written_lvalues(y))
+                          for y in walk(f))
+            return None if written else 'param'
+        d = u.by_id.get(rd.get('id'))
+        if d is not None and d.get('kind') == 'VarDecl' and kids(d) and 'const' in (qtype(d) or '') and depth < 3:
+            return _plain_name(u, f, kids(d)[-1], depth + 1)
+        return None
+    if x.get('kind') == 'MemberExpr' and kids(x) and peel(kids(x)[0], explicit=False).get('kind') == 'CXXThisExpr' and \
+            f.get('kind') == 'CXXConstructorDecl' and depth < 3:
+        for ci in f.get('inner') or []:
+            if ci.get('kind') == 'CXXCtorInitializer' and (ci.get('anyInit') or {}).get('name') == x.get('name') and kids(ci):
+                return _plain_name(u, f, kids(ci)[0], depth + 1)
+        return None
+    if x.get('kind') in ('CXXMemberCallExpr', 'CXXOperatorCallExpr', 'CallExpr'):
+        return 'derived'
+    return None
+
+
+def _check_name_chain(ctx, G, steps, root, chain_txt, path, seen):
+    started = False
+    for i, (k, site) in enumerate(steps):
+        u, f = G.defs[k]
+        if not started and not cache_refs(u, f, G):
+            continue
+        started = True
+        last = i == len(steps) - 1
+        sid = (k, id(site))
+        if sid in seen:
+            continue
+        seen.add(sid)
+        args = call_args(site)
+        if site.get('kind') == 'CXXNewExpr':
+            ce = [y for y in walk(site) if y.get('kind') == 'CXXConstructExpr']
+            args = call_args(ce[0]) if ce else []
+        names = [a for a in args if _is_string(dtype(a) or qtype(a))]
+        if last:
+            names = names[:1] if names else (args[:1])
+        if not names:
+            ctx.unknown('C20-name', 'name handed on by %s' % fname(k), site, 'no string argument at this site of the chain',
+                        construct='name:%s' % fname(k))
+            continue
+        for a in names:
+            v = _plain_name(u, f, a)
+            what = 'the factory' if last else _site_callee(site)
+            ctx.check3(None if v is None else v == 'param', 'C20-name', '%s hands its own name argument on to %s' % (fname(k), what), site,
+                       '%s is given a string computed from the requested name (%s) instead of the name itself: the cache is keyed by '
+                       'the requested name, so two requests that differ only in what is cut off reach the factory with one and the same '
+                       'name, and names the fixed-offset test would have kept away from the factory reach it'
+                       % (what, Keys(u).key(a)), construct='name:%s->%s' % (fname(k), what), path=path,
+                       unknown_why='the argument %s is not recognisably the name parameter' % Keys(u).key(a))
+        if last:
+            # the tested string is the one handed over
+            F = ctx.facts(f)
+            tested = set()
+            for (op, a_, b_) in (F.facts_at_ast(site) or ()):
+                for side in (a_, b_):
+                    m = re.match(r'^cctz::FixedOffsetFromName\((.*?),', side)
+                    if m and op == '==' and 'n:0' in (a_, b_):
+                        tested.add(m.group(1))
+            if tested:
+                ak = F.ident_key(names[0])
+                ctx.check(ak in tested, 'C20-name', 'the factory in %s is given the string the fixed-offset test refused' % fname(k), site,
+                          'the fixed-offset test was applied to %s but the factory is called with %s' % (sorted(tested), ak),
+                          construct='name:tested:%s' % fname(k), path=path)
+
+
 def run(ctx):
     G = ctx.G
     refs = factory_refs(ctx)
@@ -194,6 +282,7 @@ def run(ctx):
         m = re.match(r'^(\w+)#(0x[0-9a-f]+)$', mk)
         return bool(m and m.group(2) in smutex_vars)
 
+    seen_name_sites = set()
     for (steps, edge) in chains:
         chain_txt = ' -> '.join(fname(k) for (k, s) in steps)
         root = fname(steps[0][0])
@@ -214,6 +303,10 @@ def run(ctx):
                   'UTC / Fixed/UTC names would consult the user factory',
                   construct='fixed:%s' % chain_txt, path=path,
                   detail='FixedOffsetFromName(name,..)==false holds on every path to a site of the chain')
+
+        # ---- C20-name: from the function that owns the cache down to the factory, the name is handed on unchanged,
+        # and the factory is given the very string the fixed-offset test was applied to
+        _check_name_chain(ctx, G, steps, root, chain_txt, path, seen_name_sites)
 
         # ---- C20-serial: a static-storage mutex is held at some site of the chain
         held = []
@@ -312,6 +405,7 @@ def run(ctx):
                   construct='unbracketed:%s->%s' % (fname(rep[0]), callee_txt), path=path,
                   detail='lookup dominates and insertion post-dominates the load within one hold')
     ctx.minimum('C20-fixed', 1)
+    ctx.minimum('C20-name', 3)
     # the fixed-offset test itself must accept every name the library generates for an offset
     from .c15 import check_bounds
     check_bounds(ctx, 'C20-fixed', exact=False)
